@@ -17,13 +17,309 @@ verus! {
 //@@ subst \b(Self|Uint)::(ZERO|ONE|MAX|BITS|LOG2_BITS)\b(?!\() => \1::\2()
 //@@ subst \bUint::<(\w+)>::(ZERO|ONE|MAX|BITS)\b(?!\() => Uint::<\1>::\2()
 
+
+// ---------------------------------------------------------------- gcd (specification vocabulary of C10)
+/// Euclid's gcd on naturals; gcd(a, 0) == a, gcd(0, 0) == 0
+pub open spec fn gcd(a: nat, b: nat) -> nat
+    decreases b
+{ if b == 0 { a } else { gcd(b, a % b) } }
+
+/// gcd(a, b) divides a and b (and is positive unless a == b == 0)
+pub proof fn lemma_gcd_divides(a: nat, b: nat)
+    ensures (a > 0 || b > 0) ==> gcd(a, b) > 0,
+        gcd(a, b) > 0 ==> (a % gcd(a, b) == 0 && b % gcd(a, b) == 0),
+        (a == 0 && b == 0) ==> gcd(a, b) == 0,
+    decreases b
+{
+    if b == 0 {
+        if a > 0 { lemma_mod_self_0(a as int); lemma_small_mod(0, a); }
+    } else {
+        lemma_gcd_divides(b, a % b);
+        let g = gcd(a, b) as int;
+        assert(g == gcd(b, a % b));
+        assert(g > 0);
+        lemma_fundamental_div_mod(a as int, b as int);
+        // g | b and g | a % b  ==>  g | (a/b)*b + a%b
+        let q = a as int / b as int; let r = a as int % b as int;
+        lemma_fundamental_div_mod(b as int, g); lemma_fundamental_div_mod(r, g);
+        let bq = b as int / g; let rq = r / g;
+        assert(a as int == g * (q * bq + rq) + 0) by (nonlinear_arith)
+            requires a as int == b as int * q + r, b as int == g * bq, r == g * rq;
+        lemma_fundamental_div_mod_converse(a as int, g, q * bq + rq, 0);
+    }
+}
+
+/// every common divisor of a and b divides gcd(a, b)
+pub proof fn lemma_gcd_greatest(a: nat, b: nat, d: int)
+    requires d > 0, a as int % d == 0, b as int % d == 0
+    ensures gcd(a, b) as int % d == 0
+    decreases b
+{
+    if b != 0 {
+        let q = a as int / b as int; let r = a as int % b as int;
+        lemma_fundamental_div_mod(a as int, b as int);
+        lemma_fundamental_div_mod(a as int, d); lemma_fundamental_div_mod(b as int, d);
+        let aq = a as int / d; let bq = b as int / d;
+        assert(r == d * (aq - q * bq) + 0) by (nonlinear_arith)
+            requires a as int == b as int * q + r, a as int == d * aq, b as int == d * bq;
+        lemma_mod_bound(a as int, b as int);
+        lemma_fundamental_div_mod_converse(r, d, aq - q * bq, 0);
+        lemma_gcd_greatest(b, (a % b) as nat, d);
+    }
+}
+
+pub proof fn lemma_gcd_one(a: nat)
+    ensures gcd(a, 1) == 1
+{
+    assert(gcd(a, 1) == gcd(1, a % 1));
+    assert(a % 1 == 0);
+    assert(gcd(1, 0) == 1);
+}
+
+/// an inverse exists  ==>  coprime
+pub proof fn lemma_inverse_coprime(a: nat, m: nat, x: int)
+    requires m >= 1, x >= 0, (a as int * x) % (m as int) == 1int % (m as int)
+    ensures gcd(a, m) == 1
+{
+    if m == 1 { lemma_gcd_one(a); }
+    else {
+        lemma_gcd_divides(a, m);
+        let g = gcd(a, m) as int;
+        let ax = a as int * x;
+        lemma_small_mod(1, m);
+        lemma_fundamental_div_mod(ax, m as int);
+        let q = ax / (m as int);
+        lemma_fundamental_div_mod(a as int, g); lemma_fundamental_div_mod(m as int, g);
+        let aq = a as int / g; let mq = m as int / g;
+        assert(1 == g * (aq * x - mq * q)) by (nonlinear_arith)
+            requires a as int * x == m as int * q + 1, a as int == g * aq, m as int == g * mq;
+        let t = aq * x - mq * q;
+        assert(g == 1) by (nonlinear_arith) requires 1 == g * t, g > 0;
+    }
+}
+
+/// coprime to m  ==>  coprime to every divisor s of m
+pub proof fn lemma_coprime_divisor(a: nat, m: nat, s: nat)
+    requires s >= 1, m >= 1, m as int % (s as int) == 0, gcd(a, m) == 1
+    ensures gcd(a, s) == 1
+{
+    lemma_gcd_divides(a, s);
+    let g = gcd(a, s) as int;
+    // g | s | m
+    lemma_fundamental_div_mod(m as int, s as int); lemma_fundamental_div_mod(s as int, g);
+    let ms = m as int / (s as int); let sg = s as int / g;
+    assert(m as int == g * (sg * ms) + 0) by (nonlinear_arith) requires m as int == s as int * ms, s as int == g * sg;
+    lemma_fundamental_div_mod_converse(m as int, g, sg * ms, 0);
+    lemma_gcd_greatest(a, m, g);
+    // 1 % g == 0  ==>  g == 1
+    if g > 1 { lemma_small_mod(1, g as nat); }
+}
+
+/// coprime to an even number  ==>  odd
+pub proof fn lemma_coprime_even(a: nat, m: nat)
+    requires m >= 1, m % 2 == 0, gcd(a, m) == 1
+    ensures a % 2 == 1
+{
+    if a % 2 == 0 {
+        lemma_gcd_greatest(a, m, 2);
+        lemma_small_mod(1, 2);
+    }
+}
+
+// ---------------------------------------------------------------- powers of two
+proof fn lemma_p2_pos(n: nat)
+    ensures p2(n) >= 1
+{ lemma_pow2_pos(n); }
+
+proof fn lemma_p2_succ(n: nat)
+    ensures p2(n + 1) == 2 * p2(n), p2(0) == 1
+{ lemma_pow2_unfold(n + 1); lemma2_to64(); }
+
+/// 2^a * 2^b == 2^(a+b)
+proof fn lemma_p2_add(a: nat, b: nat)
+    ensures p2(a) * p2(b) == p2(a + b)
+{ lemma_pow2_adds(a, b); }
+
+/// for k <= 64 n:  B^n == 2^k * 2^(64n - k)
+proof fn lemma_bp_split(n: nat, k: nat)
+    requires k <= 64 * n
+    ensures bp(n) == p2(k) * p2((64 * n - k) as nat), bp(n) % p2(k) == 0, p2(k) <= bp(n)
+{
+    lemma_bp_pow2(n);
+    lemma_p2_add(k, (64 * n - k) as nat);
+    let a = p2(k); let c = p2((64 * n - k) as nat);
+    lemma_p2_pos(k); lemma_p2_pos((64 * n - k) as nat);
+    assert(a * c == c * a + 0) by (nonlinear_arith);
+    lemma_fundamental_div_mod_converse(bp(n), a, c, 0);
+    assert(a <= a * c) by (nonlinear_arith) requires a >= 1, c >= 1;
+}
+
+proof fn lemma_p2_mono(a: nat, b: nat)
+    requires a <= b
+    ensures p2(a) <= p2(b)
+{
+    if a < b { lemma_pow2_strictly_increases(a, b); }
+}
+
+// ---------------------------------------------------------------- inverse mod 2^k: one step of the bit-serial loop
+/// invariant a*x + b*2^i == 1 (mod w) is preserved by   x_i = b mod 2,  b' = (b - a*x_i mod w) / 2,  x' = x + x_i*2^i
+proof fn lemma_inv2k_step(a: int, x: int, b: int, i: nat, w: int, xi: int, c: int, b2: int, x2: int)
+    requires a % 2 == 1, a >= 0, w > 1, w % 2 == 0,
+        0 <= x < p2(i), 0 <= b < w,
+        (a * x + b * p2(i)) % w == 1,
+        xi == b % 2,
+        c == (if xi == 1 { (b - a) % w } else { b }),
+        b2 == c / 2,
+        x2 == x + xi * p2(i),
+    ensures 0 <= x2 < p2(i + 1), 0 <= b2 < w, (a * x2 + b2 * p2(i + 1)) % w == 1
+{
+    lemma_p2_succ(i); lemma_p2_pos(i);
+    let p = p2(i);
+    if xi == 0 {
+        assert(b == 2 * b2);
+        assert(b2 * (2 * p) == b * p) by (nonlinear_arith) requires b == 2 * b2;
+        assert(x2 == x) by (nonlinear_arith) requires x2 == x + xi * p, xi == 0;
+    } else {
+        assert(xi == 1);
+        lemma_fundamental_div_mod(b - a, w);
+        lemma_mod_bound(b - a, w);
+        let q = (b - a) / w;
+        let wh = w / 2;
+        assert(w == 2 * wh);
+        // c = (b - a) - q*w is even
+        assert(q * w == 2 * (q * wh)) by (nonlinear_arith) requires w == 2 * wh;
+        assert(c == 2 * (b / 2 - a / 2 - q * wh)) by (nonlinear_arith)
+            requires b - a == w * q + c, q * w == 2 * (q * wh), b == 2 * (b / 2) + 1, a == 2 * (a / 2) + 1;
+        assert(c % 2 == 0);
+        assert(c == 2 * b2);
+        assert(x2 == x + p) by (nonlinear_arith) requires x2 == x + xi * p, xi == 1;
+        assert(a * x2 + b2 * (2 * p) == (-(q * p)) * w + (a * x + b * p)) by (nonlinear_arith)
+            requires x2 == x + p, c == 2 * b2, b - a == w * q + c;
+        lemma_mod_multiples_vanish(-(q * p), a * x + b * p, w);
+    }
+}
+
+/// at i == k the invariant gives the inverse modulo 2^k
+proof fn lemma_inv2k_final(a: int, x: int, b: int, k: nat, w: int)
+    requires w > 1, w % p2(k) == 0, (a * x + b * p2(k)) % w == 1
+    ensures (a * x) % p2(k) == 1int % p2(k)
+{
+    let p = p2(k);
+    lemma_p2_pos(k);
+    lemma_fundamental_div_mod(a * x + b * p, w);
+    let q = (a * x + b * p) / w;
+    lemma_fundamental_div_mod(w, p);
+    let t = w / p;
+    assert(a * x == p * (q * t - b) + 1) by (nonlinear_arith)
+        requires a * x + b * p == w * q + 1, w == p * t;
+    lemma_mod_multiples_vanish(q * t - b, 1, p);
+    assert(p * (q * t - b) + 1 == 1 + (q * t - b) * p) by (nonlinear_arith);
+}
+
+
+/// initial state of the bit-serial inversion: x = 0, b = 1
+proof fn lemma_inv2k_init<const LIMBS: usize>(a: int)
+    requires LIMBS >= 1
+    ensures bp(LIMBS as nat) > 1, bp(LIMBS as nat) % 2 == 0, (a * 0 + 1 * p2(0)) % bp(LIMBS as nat) == 1, p2(0) == 1
+{
+    lemma_bp_succ((LIMBS - 1) as nat); lemma_p2_succ(0);
+    let w = bp(LIMBS as nat); let r = bp((LIMBS - 1) as nat);
+    assert(w == 2 * (0x8000_0000_0000_0000 * r)) by (nonlinear_arith) requires w == B() * r;
+    assert(w >= B()) by (nonlinear_arith) requires w == B() * r, r >= 1;
+    assert(a * 0 + 1 * 1 == 1) by (nonlinear_arith);
+    lemma_small_mod(1, w as nat);
+}
+
+/// set_bit on a bit that is known to be clear (x < 2^i): the result is x + c*2^i < 2^(i+1)
+proof fn lemma_set_bit_fresh(x: int, i: nat, c: int, r: int)
+    requires 0 <= x < p2(i), c == 0 || c == 1,
+        r == x - ((x / p2(i)) % 2) * p2(i) + (if c == 1 { 1int } else { 0int }) * p2(i)
+    ensures r == x + c * p2(i), 0 <= r < p2(i + 1), c == 0 ==> r == x
+{
+    lemma_p2_succ(i); lemma_p2_pos(i);
+    lemma_basic_div(x, p2(i));
+    let p = p2(i);
+    assert(((x / p) % 2) * p == 0) by (nonlinear_arith) requires x / p == 0;
+    assert(c * p == (if c == 1 { p } else { 0 })) by (nonlinear_arith) requires c == 0 || c == 1;
+    assert((if c == 1 { 1int } else { 0int }) * p == c * p) by (nonlinear_arith) requires c == 0 || c == 1;
+}
+
+// ---------------------------------------------------------------- limb-wise OR with a single disjoint bit
+/// r = a | b limb-wise, val(a) < 2^i, val(b) == c*2^i (c a bit)   ==>   val(r) == val(a) + val(b)
+proof fn lemma_bitor_disjoint_bit(a: Seq<Limb>, b: Seq<Limb>, r: Seq<Limb>, n: nat, i: nat, c: int)
+    requires i < 64 * n, 0 <= val(a, n) < p2(i), val(b, n) == c * p2(i), c == 0 || c == 1,
+        forall|k: int| 0 <= k < n ==> r[k].0 == a[k].0 | b[k].0
+    ensures val(r, n) == val(a, n) + val(b, n)
+    decreases n
+{
+    let q = (n - 1) as nat;
+    let at = a[q as int].0; let bt = b[q as int].0; let rt = r[q as int].0;
+    lemma_val_bound(a, q); lemma_val_bound(b, q); lemma_val_bound(r, q); lemma_bp_succ(q);
+    lemma_p2_pos(i);
+    let pq = bp(q);
+    assert(rt == at | bt);
+    if c == 0 {
+        assert(c * p2(i) == 0) by (nonlinear_arith) requires c == 0;
+        lemma_val_zero_iff(b, n);
+        assert forall|k: int| 0 <= k < n implies r[k].0 == a[k].0 by {
+            let x = a[k].0; let y = b[k].0;
+            assert(x | y == x) by (bit_vector) requires y == 0;
+        }
+        lemma_val_eq_iff(r, a, n);
+    } else if i < 64 * q {
+        assert(c * p2(i) == p2(i)) by (nonlinear_arith) requires c == 1;
+        // top limbs of a and b are zero
+        lemma_bp_split(q, i);
+        assert(at == 0) by (nonlinear_arith)
+            requires val(a, q) + at as int * pq < p2(i), p2(i) <= pq, val(a, q) >= 0, at >= 0;
+        lemma_p2_mono(i, (64 * q - 1) as nat); lemma_p2_succ((64 * q - 1) as nat); lemma_bp_pow2(q);
+        assert(p2(i) < pq);
+        assert(bt == 0) by (nonlinear_arith)
+            requires val(b, q) + bt as int * pq == p2(i), p2(i) < pq, val(b, q) >= 0, bt >= 0;
+        assert(at | bt == 0) by (bit_vector) requires at == 0, bt == 0;
+        assert(at as int * pq == 0 && bt as int * pq == 0 && rt as int * pq == 0) by (nonlinear_arith) requires at == 0, bt == 0, rt == 0;
+        lemma_bitor_disjoint_bit(a, b, r, q, i, c);
+    } else {
+        assert(c * p2(i) == p2(i)) by (nonlinear_arith) requires c == 1;
+        let sh = (i - 64 * q) as nat;
+        lemma_bp_pow2(q); lemma_p2_add(sh, 64 * q);
+        let ps = p2(sh);
+        assert(p2(i) == ps * pq);
+        lemma_p2_pos(sh);
+        // b: top limb is 2^sh, the rest is zero
+        assert(bt as int == ps && val(b, q) == 0) by (nonlinear_arith)
+            requires val(b, q) + bt as int * pq == ps * pq, 0 <= val(b, q) < pq, bt >= 0, ps >= 1;
+        lemma_val_zero_iff(b, q);
+        assert forall|k: int| 0 <= k < q implies r[k].0 == a[k].0 by {
+            let x = a[k].0; let y = b[k].0;
+            assert(x | y == x) by (bit_vector) requires y == 0;
+        }
+        lemma_val_eq_iff(r, a, q);
+        // a: top limb < 2^sh
+        assert((at as int) < ps) by (nonlinear_arith)
+            requires val(a, q) + at as int * pq < ps * pq, val(a, q) >= 0, pq > 0;
+        lemma_one_shl(sh as u64);
+        let shu = sh as u64;
+        assert(bt == 1u64 << shu);
+        assert((at | bt) as u128 == (at as u128) + (bt as u128)) by (bit_vector) requires bt == 1u64 << shu, at < bt, shu < 64;
+        assert((at as int + bt as int) * pq == at as int * pq + bt as int * pq) by (nonlinear_arith);
+    }
+}
+
 //@@ fn src/uint/bit_and.rs | impl<const LIMBS: usize> Uint<LIMBS> | bitand | body | props C05 C11
 impl<const LIMBS: usize> Uint<LIMBS> {
 pub const fn bitand(&self, rhs: &Self) -> (ret__: Self)
+//@+
+    ensures forall|k: int| 0 <= k < LIMBS ==> ret__.limbs@[k].0 == self.limbs@[k].0 & rhs.limbs@[k].0
+//@-
 {
         let mut limbs = [Limb::ZERO; LIMBS];
         let mut i = 0;
         while i < LIMBS
+//@+
+    invariant i <= LIMBS, forall|k: int| 0 <= k < i ==> limbs@[k].0 == self.limbs@[k].0 & rhs.limbs@[k].0,
+    decreases LIMBS - i,
+//@-
 {
             limbs[i] = self.limbs[i].bitand(rhs.limbs[i]);
             i += 1;
@@ -35,6 +331,10 @@ pub const fn bitand(&self, rhs: &Self) -> (ret__: Self)
 //@@ fn src/const_choice.rs | impl<T> ConstCtOption<T> | and_choice | body | props C06 C11
 impl<T> ConstCtOption<T> {
 pub const fn and_choice(self, is_some: ConstChoice) -> (ret__: Self)
+//@+
+    requires self.is_some.wf(), is_some.wf()
+    ensures ret__.value == self.value, ret__.is_some.wf(), ret__.is_some.t() == (self.is_some.t() && is_some.t())
+//@-
 {
 let mut self__ = self;
         self__.is_some = self__.is_some.and(is_some);
@@ -46,6 +346,11 @@ let mut self__ = self;
 //@@ fn src/uint/inv_mod.rs | impl<const LIMBS: usize> Uint<LIMBS> | inv_mod2k_full_vartime | body | props C10 C11 C15
 impl<const LIMBS: usize> Uint<LIMBS> {
 pub const fn inv_mod2k_full_vartime(&self, k: u32) -> (ret__: Option<Self>)
+//@+
+    requires 1 <= LIMBS < 0x400_0000, k as int <= 64 * LIMBS
+    ensures ret__.is_some() == (k == 0 || self.v() % 2 == 1),
+        ret__.is_some() ==> 0 <= ret__.unwrap().v() < p2(k as nat) && (self.v() * ret__.unwrap().v()) % p2(k as nat) == 1int % p2(k as nat)
+//@-
 {
         // Using the Algorithm 3 from "A Secure Algorithm for Inversion Modulo 2k"
         // by Sadiel de la Fe and Carles Ferrer.
@@ -59,19 +364,58 @@ pub const fn inv_mod2k_full_vartime(&self, k: u32) -> (ret__: Option<Self>)
         if k != 0 && !self.is_odd().to_bool_vartime() {
             return None;
         }
+//@+
+    let ghost a = self.v(); let ghost w = bp(LIMBS as nat);
+    proof {
+        lemma_inv2k_init::<LIMBS>(a);
+        lemma_val_bound(b.limbs@, LIMBS as nat); lemma_val_bound(self.limbs@, LIMBS as nat);
+    }
+//@-
         while i < k
+//@+
+    invariant 1 <= LIMBS < 0x400_0000, k as int <= 64 * LIMBS, i <= k, a == self.v(), w == bp(LIMBS as nat), a >= 0, w > 1, w % 2 == 0,
+        0 <= b.v() < w, 0 <= x.v() < p2(i as nat),
+        k != 0 ==> a % 2 == 1,
+        a % 2 == 1 ==> (a * x.v() + b.v() * p2(i as nat)) % w == 1,
+    decreases k - i,
+//@-
 {
+//@+
+    let ghost b0 = b.v(); let ghost x0 = x.v();
+    let ghost bl = b.limbs@[0].0;
+    proof {
+        lemma_val_low(b.limbs@, LIMBS as nat);
+        assert((bl & 1) == 0 || (bl & 1) == 1) by (bit_vector);
+        assert((bl & 1) == bl % 2) by (bit_vector);
+    }
+//@-
             // X_i = b_i mod 2
             let x_i = b.limbs[0].0 & 1;
             // b_{i+1} = (b_i - a * X_i) / 2
             if x_i != 0 {
                 b = b.wrapping_sub(self);
             }
+//@+
+    let ghost c = b.v();
+//@-
             b = b.shr1();
             // Store the X_i bit in the result (x = x | (1 << X_i))
             x = x.set_bit_vartime(i, x_i != 0);
+//@+
+    proof {
+        lemma_val_bound(b.limbs@, LIMBS as nat);
+        lemma_set_bit_fresh(x0, i as nat, x_i as int, x.v());
+        lemma_inv2k_step(a, x0, b0, i as nat, w, x_i as int, c, b.v(), x.v());
+    }
+//@-
             i += 1;
         }
+//@+
+    proof {
+        if k == 0 { lemma_p2_succ(0); }
+        else { lemma_bp_split(LIMBS as nat, k as nat); lemma_inv2k_final(a, x.v(), b.v(), k as nat, w); }
+    }
+//@-
         Some(x)
     }
 }
@@ -79,6 +423,11 @@ pub const fn inv_mod2k_full_vartime(&self, k: u32) -> (ret__: Option<Self>)
 //@@ fn src/uint/inv_mod.rs | impl<const LIMBS: usize> Uint<LIMBS> | inv_mod2k_vartime | body | props C10 C11 C15
 impl<const LIMBS: usize> Uint<LIMBS> {
 pub const fn inv_mod2k_vartime(&self, k: u32) -> (ret__: ConstCtOption<Self>)
+//@+
+    requires 1 <= LIMBS < 0x400_0000, k as int <= 64 * LIMBS
+    ensures ret__.is_some.wf(), ret__.is_some.t() == (k == 0 || self.v() % 2 == 1),
+        ret__.is_some.t() ==> 0 <= ret__.value.v() < p2(k as nat) && (self.v() * ret__.value.v()) % p2(k as nat) == 1int % p2(k as nat)
+//@-
 {
         // Using the Algorithm 3 from "A Secure Algorithm for Inversion Modulo 2k"
         // by Sadiel de la Fe and Carles Ferrer.
@@ -90,20 +439,72 @@ pub const fn inv_mod2k_vartime(&self, k: u32) -> (ret__: ConstCtOption<Self>)
         let mut i = 0;
         // The inverse exists either if `k` is 0 or if `self` is odd.
         let is_some = ConstChoice::from_u32_nonzero(k).not().or(self.is_odd());
+//@+
+    let ghost a = self.v(); let ghost w = bp(LIMBS as nat);
+    proof {
+        lemma_inv2k_init::<LIMBS>(a);
+        lemma_val_bound(b.limbs@, LIMBS as nat); lemma_val_bound(self.limbs@, LIMBS as nat);
+    }
+//@-
         while i < k
+//@+
+    invariant 1 <= LIMBS < 0x400_0000, k as int <= 64 * LIMBS, i <= k, a == self.v(), w == bp(LIMBS as nat), a >= 0, w > 1, w % 2 == 0,
+        0 <= b.v() < w, 0 <= x.v() < p2(i as nat),
+        a % 2 == 1 ==> (a * x.v() + b.v() * p2(i as nat)) % w == 1,
+    decreases k - i,
+//@-
 {
+//@+
+    let ghost b0 = b.v(); let ghost x0 = x.v(); let ghost xs0 = x.limbs@;
+    let ghost bl = b.limbs@[0].0;
+    proof {
+        lemma_val_low(b.limbs@, LIMBS as nat);
+        assert((bl & 1) == 0 || (bl & 1) == 1) by (bit_vector);
+        assert((bl & 1) == bl % 2) by (bit_vector);
+    }
+//@-
             // X_i = b_i mod 2
             let x_i = b.limbs[0].0 & 1;
             let x_i_choice = ConstChoice::from_word_lsb(x_i);
+//@+
+    let ghost c = if x_i == 1 { (b0 - a) % w } else { b0 };
+//@-
             // b_{i+1} = (b_i - a * X_i) / 2
             b = Self::select(&b, &b.wrapping_sub(self), x_i_choice).shr1();
+//@+
+    proof {
+        lemma_bp_split(LIMBS as nat, i as nat); lemma_p2_pos(i as nat);
+        lemma_p2_mono((i + 1) as nat, (64 * LIMBS) as nat); lemma_p2_succ(i as nat); lemma_bp_pow2(LIMBS as nat);
+        assert(x_i as int * p2(i as nat) < w) by (nonlinear_arith) requires 0 <= x_i as int <= 1, 2 * p2(i as nat) <= w, p2(i as nat) >= 1;
+        assert(x_i as int * p2(i as nat) >= 0) by (nonlinear_arith) requires 0 <= x_i as int <= 1, p2(i as nat) >= 1;
+        lemma_small_mod((x_i as int * p2(i as nat)) as nat, w as nat);
+    }
+//@-
             // Store the X_i bit in the result (x = x | (1 << X_i))
             let shifted = Uint::from_word(x_i)
                 .overflowing_shl_vartime(i)
                 .expect("shift within range");
             x = x.bitor(&shifted);
+//@+
+    proof {
+        lemma_val_bound(b.limbs@, LIMBS as nat);
+        lemma_bitor_disjoint_bit(xs0, shifted.limbs@, x.limbs@, LIMBS as nat, i as nat, x_i as int);
+        if a % 2 == 1 {
+            lemma_inv2k_step(a, x0, b0, i as nat, w, x_i as int, c, b.v(), x.v());
+        } else {
+            lemma_p2_succ(i as nat);
+            assert(x0 + x_i as int * p2(i as nat) < 2 * p2(i as nat)) by (nonlinear_arith) requires x0 < p2(i as nat), 0 <= x_i as int <= 1, p2(i as nat) >= 1;
+        }
+    }
+//@-
             i += 1;
         }
+//@+
+    proof {
+        if k == 0 { lemma_p2_succ(0); }
+        else if a % 2 == 1 { lemma_bp_split(LIMBS as nat, k as nat); lemma_inv2k_final(a, x.v(), b.v(), k as nat, w); }
+    }
+//@-
         ConstCtOption::new(x, is_some)
     }
 }
@@ -111,6 +512,11 @@ pub const fn inv_mod2k_vartime(&self, k: u32) -> (ret__: ConstCtOption<Self>)
 //@@ fn src/uint/inv_mod.rs | impl<const LIMBS: usize> Uint<LIMBS> | inv_mod2k | body | props C10 C11 C15
 impl<const LIMBS: usize> Uint<LIMBS> {
 pub const fn inv_mod2k(&self, k: u32) -> (ret__: ConstCtOption<Self>)
+//@+
+    requires 1 <= LIMBS < 0x400_0000, k as int <= 64 * LIMBS
+    ensures ret__.is_some.wf(), ret__.is_some.t() == (k == 0 || self.v() % 2 == 1),
+        ret__.is_some.t() ==> 0 <= ret__.value.v() < p2(k as nat) && (self.v() * ret__.value.v()) % p2(k as nat) == 1int % p2(k as nat)
+//@-
 {
         // This is the same algorithm as in `inv_mod2k_vartime()`,
         // but made constant-time w.r.t `k` as well.
@@ -119,20 +525,64 @@ pub const fn inv_mod2k(&self, k: u32) -> (ret__: ConstCtOption<Self>)
         let mut i = 0;
         // The inverse exists either if `k` is 0 or if `self` is odd.
         let is_some = ConstChoice::from_u32_nonzero(k).not().or(self.is_odd());
+//@+
+    let ghost a = self.v(); let ghost w = bp(LIMBS as nat);
+    proof {
+        lemma_inv2k_init::<LIMBS>(a);
+        lemma_val_bound(b.limbs@, LIMBS as nat); lemma_val_bound(self.limbs@, LIMBS as nat);
+        if k == 0 { lemma_p2_succ(0); }
+    }
+//@-
         while i < Self::BITS()
+//@+
+    invariant 1 <= LIMBS < 0x400_0000, k as int <= 64 * LIMBS, i as int <= 64 * LIMBS, a == self.v(), w == bp(LIMBS as nat), a >= 0, w > 1, w % 2 == 0,
+        0 <= b.v() < w, 0 <= x.v() < p2(min_int(i as int, k as int) as nat),
+        (a % 2 == 1 && i <= k) ==> (a * x.v() + b.v() * p2(i as nat)) % w == 1,
+        (a % 2 == 1 && i >= k) ==> (a * x.v()) % p2(k as nat) == 1int % p2(k as nat),
+        k == 0 ==> (a * x.v()) % p2(k as nat) == 1int % p2(k as nat),
+    decreases 64 * LIMBS - i,
+//@-
 {
+//@+
+    let ghost b0 = b.v(); let ghost x0 = x.v();
+    let ghost bl = b.limbs@[0].0;
+    proof {
+        lemma_val_low(b.limbs@, LIMBS as nat);
+        assert((bl & 1) == 0 || (bl & 1) == 1) by (bit_vector);
+        assert((bl & 1) == bl % 2) by (bit_vector);
+    }
+//@-
             // Only iterations for i = 0..k need to change `x`,
             // the rest are dummy ones performed for the sake of constant-timeness.
             let within_range = ConstChoice::from_u32_lt(i, k);
             // X_i = b_i mod 2
             let x_i = b.limbs[0].0 & 1;
             let x_i_choice = ConstChoice::from_word_lsb(x_i);
+//@+
+    let ghost c = if x_i == 1 { (b0 - a) % w } else { b0 };
+//@-
             // b_{i+1} = (b_i - self * X_i) / 2
             b = Self::select(&b, &b.wrapping_sub(self), x_i_choice).shr1();
             // Store the X_i bit in the result (x = x | (1 << X_i))
             // Don't change the result in dummy iterations.
             let x_i_choice = x_i_choice.and(within_range);
             x = x.set_bit(i, x_i_choice);
+//@+
+    proof {
+        lemma_val_bound(b.limbs@, LIMBS as nat);
+        if i < k {
+            lemma_set_bit_fresh(x0, i as nat, x_i as int, x.v());
+            if a % 2 == 1 {
+                lemma_inv2k_step(a, x0, b0, i as nat, w, x_i as int, c, b.v(), x.v());
+                if i + 1 == k { lemma_bp_split(LIMBS as nat, k as nat); lemma_inv2k_final(a, x.v(), b.v(), k as nat, w); }
+            }
+        } else {
+            // dummy iteration: bit i of x is already clear and stays clear
+            lemma_p2_mono(k as nat, i as nat);
+            lemma_set_bit_fresh(x0, i as nat, 0, x.v());
+        }
+    }
+//@-
             i += 1;
         }
         ConstCtOption::new(x, is_some)
